@@ -305,6 +305,10 @@ func (o *OperandPegImpl) CalcOffsetByteSize() int {
 			if o.bitMode == cpu.MODE_16BIT && memInfo.BaseReg == "BP" && memInfo.IndexReg == "" {
 				return 1 // disp8=0 for [BP]
 			}
+			// [EBP] も同様に ModRM mode 01 + disp8=0 でエンコードされる
+			if memInfo.BaseReg == "EBP" && memInfo.IndexReg == "" {
+				return 1 // disp8=0 for [EBP]
+			}
 			// Other cases like [BX], [SI], [BX+SI] etc. need no offset bytes with ModRM mode 00.
 			return 0
 		}
@@ -320,8 +324,8 @@ func (o *OperandPegImpl) CalcOffsetByteSize() int {
 			return 1 // disp8
 		}
 
-		// 8ビットに収まらない場合、ビットモードに応じて disp16 または disp32
-		if o.bitMode == cpu.MODE_16BIT {
+		// 8ビットに収まらない場合、アドレス幅 (ビットモードではなく使用レジスタで決まる) に応じて disp16 または disp32
+		if !uses32BitAddressing(memInfo, o.bitMode) {
 			// 16ビットモードでは、16ビットディスプレースメントを使用
 			return 2 // disp16
 		}
@@ -520,7 +524,7 @@ func (o *OperandPegImpl) IsType(index int, targetType OperandType) bool {
 func (o *OperandPegImpl) CalcSibByteSize() int {
 	memInfo, found := o.GetMemoryInfo()
 	// 32ビットモードでメモリオペランドがある場合のみ SIB の可能性を考慮
-	if found && memInfo != nil && o.GetBitMode() == cpu.MODE_32BIT {
+	if found && memInfo != nil && uses32BitAddressing(memInfo, o.GetBitMode()) {
 		// ModR/M rm=100 になる条件をチェック (calculateModRM のロジックを参考)
 		isDirectAddr := memInfo.BaseReg == "" && memInfo.IndexReg == ""
 		isEBPBasedNoIndex := memInfo.BaseReg == "EBP" && memInfo.IndexReg == ""
@@ -532,4 +536,13 @@ func (o *OperandPegImpl) CalcSibByteSize() int {
 		}
 	}
 	return 0 // SIB バイトは不要
+}
+
+// uses32BitAddressing は、メモリオペランドが 32 ビットアドレッシングでエンコードされるかどうかを返します。
+// レジスタを使う場合はレジスタの幅で、直接アドレスの場合はビットモードで決まります。
+func uses32BitAddressing(mem *MemoryInfo, mode cpu.BitMode) bool {
+	if mem.BaseReg == "" && mem.IndexReg == "" {
+		return mode == cpu.MODE_32BIT
+	}
+	return strings.HasPrefix(mem.BaseReg, "E") || strings.HasPrefix(mem.IndexReg, "E")
 }
